@@ -16,7 +16,9 @@ out = ["## 13. Seeded changes and which checks catch them", "",
        "cooperating edits, stale state, index subtleties, masked layouts). Round 4 (`d`): one more per property, told the kinds of rounds 1-3.",
        "Round 5 (`H<n>-d<k>`): one agent per class family with all twenty property texts. Round 6 (`e`, adversarial): the agents were told that",
        "the checker is a symbolic exact-arithmetic analysis with lints and asked for defects such an analysis would plausibly overlook",
-       "(float64 cancellation, import-order dtypes, integer truncation, hidden state, special values, tail accuracy). The rows marked **none**",
+       "(float64 cancellation, import-order dtypes, integer truncation, hidden state, special values, tail accuracy). Round 7 (`L<n>-d<k>`): one area",
+       "of the code per agent that earlier rounds had touched least (truncated measures, feature models, pytrees / dicts / sampling, factors and polynomial",
+       "integrals, densities and diagonal conditionals); one of its 20 changes duplicated H3-d1 exactly and is not kept. The rows marked **none**",
        "are kept on purpose: they are the measured limit of the technique (section 12).", "",
        "| seed | target | change | needs to manifest | reported by | first missed? -> strengthening |", "|---|---|---|---|---|---|"]
 for m in rows:
